@@ -138,7 +138,7 @@ def gen_scenarios(rng: Rng) -> list[dict]:
         out.append(
             {
                 "via": via,
-                "action": rng.choice(["lint", "fix"]) if i < 2 else rng.choice(["lint", "fix", "format"]),
+                "action": rng.choice(["lint", "fix"]) if i < 2 else rng.choice(["lint", "fix", "format", "parse"]),
                 "processes": procs,
                 "lookahead": rng.choice([1, 2, 8]),
                 "dequeue": rng.choice(["fifo", "any"]),
@@ -208,6 +208,8 @@ def run_one(ctx: Any, seed: int, tier: str, replay: Optional[dict] = None) -> di
                 else:
                     if fix:
                         argv = [sc["action"], ".", "-p", str(sc["processes"])]
+                    elif sc["action"] == "parse":
+                        argv = ["parse", ".", "--format", "json"]  # `sqlfluff parse <dir>`: same size gate, serial
                     else:
                         argv = ["lint", ".", "--format", "json", "-p", str(sc["processes"])]
                     out = n.call("cli", argv=argv, plan=plan)
@@ -232,7 +234,7 @@ def run_one(ctx: Any, seed: int, tier: str, replay: Optional[dict] = None) -> di
             recs = None
             if "records" in out:
                 recs = {norm(r["filepath"]): r["violations"] for r in out["records"]}
-            elif sc["via"] == "cli" and not fix and "exception" not in out:
+            elif sc["via"] == "cli" and not fix and sc["action"] != "parse" and "exception" not in out:
                 try:
                     recs = {norm(r["filepath"]): r["violations"] for r in json.loads(out.get("stdout") or "[]")}
                 except Exception:
@@ -243,7 +245,26 @@ def run_one(ctx: Any, seed: int, tier: str, replay: Optional[dict] = None) -> di
                 faults["stat_err"] += 1
             aborted = "exception" in out or "crashed" in out
             if aborted and not faulted:
-                vs.append(("exception", "unexpected exception %s" % out.get("exception"), None))
+                # is the abort about size limits at all? control: the same scenario with every limit switched off
+                ctl_tree = dict(initial)
+                for rel_, (data_, mode_) in initial.items():
+                    if data_ is not None and os.path.basename(rel_) == ".sqlfluff":
+                        kept = [ln for ln in data_.decode("utf-8", "replace").splitlines() if not ln.startswith("large_file_skip_")]
+                        kept.insert(1 if kept and kept[0].startswith("[sqlfluff]") else 0, "large_file_skip_byte_limit = 0")
+                        ctl_tree[rel_] = (("\n".join(kept) + "\n").encode("utf-8"), mode_)
+                seams.restore_tree(root, ctl_tree)
+                cn = z.node({"name": "ctl%d" % si, "root": root, "cwd": cwd, "seed": sc["node_seed"], "knobs": dict(knobs, worker_plan=[]), "tape": tape})
+                try:
+                    if sc["via"] == "api":
+                        cout = cn.call("lint_paths", paths=["."], fix=fix, apply_fixes=fix, processes=sc["processes"], retain_files=True)
+                    else:
+                        cout = cn.call("cli", argv=argv)
+                finally:
+                    cn.close()
+                if "exception" in cout or "crashed" in cout:
+                    probes["abort_unrelated_to_limits"] += 1  # aborts without any limit, too: not this property's business
+                else:
+                    vs.append(("exception", "run aborted with %s although it completes when the size limits are switched off" % (out.get("exception"),), None))
             for rel in sorted(S):
                 why = mdl[rel]
                 if rel in lexed or rel in parsed:
@@ -262,7 +283,7 @@ def run_one(ctx: Any, seed: int, tier: str, replay: Optional[dict] = None) -> di
             if "files_skipped" in out and out["files_skipped"] != len(S) and not faulted:
                 whys = {mdl[r] for r in S}
                 vs.append(("count", "files_skipped=%r but %d files exceed their limit (%s)" % (out["files_skipped"], len(S), sorted(S)), "char" if whys == {"char"} or out["files_skipped"] == sum(1 for r in S if mdl[r] == "byte") else None))
-            if sc["via"] == "cli" and "exit_code" in out and "exception" not in out and not faulted:
+            if sc["via"] == "cli" and sc["action"] != "parse" and "exit_code" in out and "exception" not in out and not faulted:
                 code = out["exit_code"]
                 if skip_fail(world) and S and code == 0:
                     whys = {mdl[r] for r in S}
